@@ -79,6 +79,7 @@ theorem parseBackend_frame (ty : UInt8) (p rest : Bytes) (h : 4 + p.length < 214
   rw [if_neg (by omega)]
   have : ((4 + p.length : Nat) : Int).toNat - 4 = p.length := by omega
   rw [this, pBytes_append]
+  rfl
 
 theorem done_some {α : Type} (a : α) : done (some (a, ([] : Bytes))) = some a := rfl
 
@@ -157,15 +158,22 @@ def encodeMany : List BackendMsg → Bytes
   | [] => []
   | m :: ms => encodeBackend m ++ encodeMany ms
 
+theorem parseMany_succ (n : Nat) (b : Bytes) :
+    parseMany (n + 1) b =
+      match parseBackend b with
+      | some (m, rest) => ((m :: (parseMany n rest).1), (parseMany n rest).2)
+      | none => ([], b) := rfl
+
 theorem C28_stream (ms : List BackendMsg) (h : ∀ m ∈ ms, wfBackend m) :
     parseMany ms.length (encodeMany ms) = (ms, []) := by
   induction ms with
   | nil => rfl
   | cons m ms ih =>
-    simp only [encodeMany, List.length_cons, parseMany]
-    rw [C28_parse_encode m _ (h m (by simp))]
-    simp only
-    rw [ih (fun x hx => h x (by simp [hx]))]
+    have e : encodeMany (m :: ms) = encodeBackend m ++ encodeMany ms := rfl
+    rw [e, List.length_cons, parseMany_succ, C28_parse_encode m _ (h m (by simp))]
+    have ih' := ih (fun x hx => h x (by simp [hx]))
+    show ((m :: (parseMany ms.length (encodeMany ms)).1), (parseMany ms.length (encodeMany ms)).2) = _
+    rw [ih']
 
 /-! ### outside `wfBackend` the law fails: what the callers must not construct -/
 
@@ -216,12 +224,12 @@ theorem C28_type_bytes_match_source :
 /-! ### non-vacuity -/
 
 /-- a RowDescription with a column `id` of type int4 -/
-example : wfBackend (.rowDescription [{ name := [0x69, 0x64], tableOid := 0, columnAttr := 1,
-    typeOid := 23, typeSize := 4, typeModifier := -1, formatCode := 0 }]) := by
+example : wfBackend (.rowDescription [⟨[0x69, 0x64], 0, 1, 23, 4, -1, 0⟩]) := by
   refine ⟨⟨by decide, ?_⟩, by decide⟩
   intro f hf
   simp only [List.mem_singleton] at hf
   subst hf
+  simp only [wfField, isI32, isI16]
   decide
 
 /-- a DataRow with a NULL, an empty value and a value containing a NUL byte -/
@@ -229,13 +237,13 @@ example : wfBackend (.dataRow [none, some [], some [0x31, 0, 0x32]]) := by
   refine ⟨⟨by decide, ?_⟩, by decide⟩
   intro v hv
   simp only [List.mem_cons, List.not_mem_nil, or_false] at hv
-  rcases hv with rfl | rfl | rfl <;> decide
+  rcases hv with rfl | rfl | rfl <;> simp [wfValue]
 
 /-- an ErrorResponse with severity, code and message -/
 example : wfBackend (.errorResponse [(0x53, [0x45]), (0x43, [0x34, 0x32]), (0x4d, [0x78])]) := by
   refine ⟨?_, by decide⟩
   intro f hf
   simp only [List.mem_cons, List.not_mem_nil, or_false] at hf
-  rcases hf with rfl | rfl | rfl <;> decide
+  rcases hf with rfl | rfl | rfl <;> (simp only [wfNoticeField]; decide)
 
 end VibeProof.C28
